@@ -562,7 +562,7 @@ static void sub_must_throw() {
 int main(int argc, char **argv) {
     vf::init(argc, argv);
     MAIN_PID = getpid(); STRIDE = vf::opt_int("stride", 1); CHILD_TIMEOUT_MS = (int)vf::opt_int("child-timeout-ms", 10000);
-    { char tmpl[] = "/tmp/vf-c19-XXXXXX"; char *d = mkdtemp(tmpl); if (!d) { perror("mkdtemp"); return 3; } TMP = d; atexit(cleanup_tmp); }
+    { char tmpl[] = "/tmp/c19-io-XXXXXX"; char *d = mkdtemp(tmpl); if (!d) { perror("mkdtemp"); return 3; } TMP = d; atexit(cleanup_tmp); }
     if (vf::sub_enabled("mm_roundtrip")) sub_mm_roundtrip();
     if (vf::sub_enabled("mm_symmetric")) sub_mm_symmetric();
     if (vf::sub_enabled("binary_roundtrip")) sub_binary_roundtrip();
